@@ -97,28 +97,44 @@ def sameVb (v : Variant) (ns : Array Nat) (a b : Nat) : Bool :=
   | .cuckatoo => a % 2 == b % 2 && ns[a]! / 2 == ns[b]! / 2
   | .cuckaroom => ns[a]! == ns[b]!
 
-/-- every vertex has exactly two edge ends, and they continue into each other -/
-def degreeOk (v : Variant) (ns : Array Nat) (dirs : Array Nat) : Bool :=
-  let n := ns.size
+/-- the variant's condition on the two edge ends `a`, `b` meeting in a vertex -/
+def contb (v : Variant) (ns : Array Nat) (dirs : Array Nat) (a b : Nat) : Bool :=
+  match v with
+  | .cuckatoo => ns[a]! != ns[b]!              -- the two ends differ in the low bit
+  | .cuckarood => dirs[a / 2]! != dirs[b / 2]!  -- opposite directions
+  | .cuckaroom => a % 2 != b % 2                -- one incoming (`to`), one outgoing (`from`)
+  | _ => true
+
+/-- every one of the `n` slots shares its vertex (`sv`) with exactly one other slot, and the two
+continue into each other (`cont`) -/
+def degreeOkG (n : Nat) (sv cont : Nat → Nat → Bool) : Bool :=
   (List.range n).all fun a =>
-    match (List.range n).filter (fun b => b != a && sameVb v ns a b) with
-    | [b] =>
-      match v with
-      | .cuckatoo => ns[a]! != ns[b]!              -- the two ends differ in the low bit
-      | .cuckarood => dirs[a / 2]! != dirs[b / 2]!  -- opposite directions
-      | .cuckaroom => a % 2 != b % 2                -- one incoming (`to`), one outgoing (`from`)
-      | _ => true
+    match (List.range n).filter (fun b => b != a && sv a b) with
+    | [b] => cont a b
     | _ => false
 
-/-- edges reachable from edge 0 through shared vertices, `rounds` closure rounds -/
-def closure (v : Variant) (ns : Array Nat) (L : Nat) : Nat → List Nat → List Nat
+/-- every vertex has exactly two edge ends, and they continue into each other -/
+def degreeOk (v : Variant) (ns : Array Nat) (dirs : Array Nat) : Bool :=
+  degreeOkG ns.size (sameVb v ns) (contb v ns dirs)
+
+/-- does edge `e` share a vertex with edge `e'`? -/
+def adjEdge (sv : Nat → Nat → Bool) (e e' : Nat) : Bool :=
+  sv (2*e) (2*e') || sv (2*e) (2*e'+1) || sv (2*e+1) (2*e') || sv (2*e+1) (2*e'+1)
+
+/-- one closure round: the edges in `comp` or sharing a vertex with one of them -/
+def grow (sv : Nat → Nat → Bool) (L : Nat) (comp : List Nat) : List Nat :=
+  (List.range L).filter fun e => comp.contains e || comp.any fun e' => adjEdge sv e e'
+
+/-- edges reachable from `comp` through shared vertices, at most `rounds` closure rounds -/
+def closureG (sv : Nat → Nat → Bool) (L : Nat) : Nat → List Nat → List Nat
   | 0, comp => comp
   | r+1, comp =>
-    let comp' := (List.range L).filter fun e =>
-      comp.contains e || comp.any fun e' =>
-        sameVb v ns (2*e) (2*e') || sameVb v ns (2*e) (2*e'+1) ||
-        sameVb v ns (2*e+1) (2*e') || sameVb v ns (2*e+1) (2*e'+1)
-    if comp'.length = comp.length then comp else closure v ns L r comp'
+    let comp' := grow sv L comp
+    if comp'.length = comp.length then comp else closureG sv L r comp'
+
+/-- edges reachable from edge 0 through shared vertices, `rounds` closure rounds -/
+def closure (v : Variant) (ns : Array Nat) (L : Nat) : Nat → List Nat → List Nat :=
+  closureG (sameVb v ns) L
 
 /-- the edges form one simple cycle through all of them (graph part only) -/
 def oracleCycle (v : Variant) (es : List (Nat × Nat)) (dirs : List Nat) : Bool :=
